@@ -65,6 +65,39 @@ def parseIntText (bs : Bytes) : Option Int :=
     | _ => (parseNat bs).map fun n => (n : Int)
   r.bind fun i => if i.natAbs < 2 ^ 255 then some i else none
 
+/-! ### the text form of a coin (`Coin.String`, `ParseCoin`) -/
+
+/-- `[[:space:]]`: the six ASCII white-space bytes -/
+def isSpaceB (b : Nat) : Bool := b == 32 || (9 ≤ b && b ≤ 13)
+def isDigitB (b : Nat) : Bool := 48 ≤ b && b ≤ 57
+def isLowerB (b : Nat) : Bool := 97 ≤ b && b ≤ 122
+
+/-- `[a-z][a-z0-9]{2,15}` -/
+def denomOK (d : Bytes) : Bool :=
+  match d with
+  | [] => false
+  | c :: rest => isLowerB c && rest.all (fun b => isLowerB b || isDigitB b) && 2 ≤ rest.length && rest.length ≤ 15
+
+/-- `big.Int.SetString(s, 0)` on a string of digits: a leading zero announces octal -/
+def parseAmount (ds : Bytes) : Option Nat :=
+  match ds with
+  | [] => none
+  | [48] => some 0
+  | 48 :: rest => rest.foldl (fun acc d => acc.bind fun a => if 48 ≤ d ∧ d ≤ 55 then some (a * 8 + (d - 48)) else none) (some 0)
+  | _ => parseNat ds
+
+/-- `Coin.String`: the amount in decimal followed by the denomination -/
+def coinText (denom : Bytes) (amount : Nat) : Bytes := natDigits amount ++ denom
+
+/-- `ParseCoin`: surrounding white space is dropped; then `^([[:digit:]]+)[[:space:]]*([a-z][a-z0-9]{2,15})$`, the amount
+read by `NewIntFromString` (base prefix rules, at most 255 bits) -/
+def parseCoinText (s : Bytes) : Option (Bytes × Nat) :=
+  let t := ((s.dropWhile isSpaceB).reverse.dropWhile isSpaceB).reverse
+  let ds := t.takeWhile isDigitB
+  let rest := (t.dropWhile isDigitB).dropWhile isSpaceB
+  if ds.isEmpty || !denomOK rest then none
+  else (parseAmount ds).bind fun n => if n < 2 ^ 255 then some (rest, n) else none
+
 /-! ### amino structs -/
 
 /-- field key: (field number << 3) | wire type; 2 = length-delimited -/
